@@ -31,7 +31,7 @@ STUB_COMPONENTS = ["leaf processors (svsim.lib)", "RecordingExecutor (inline, = 
 ASSUMPTIONS = ["jsonschema Draft 2020-12 + referencing implement the schemas faithfully",
                "SERs are validated against the registry-mapped schema only (not the header), as the property states",
                "a base pipeline whose fault-free run deviates from generator bookkeeping is discarded and counted"]
-REQUIRED_PROBES = ["failure_at_first_node", "failure_at_last_node", "construction_error", "abort_class_failure", "directory_mode"]
+REQUIRED_PROBES = ["run_started_inside_except_block", "failure_at_first_node", "failure_at_last_node", "construction_error", "abort_class_failure", "directory_mode"]
 CONFIG = {
     "quick": {"runs": 800, "budget_s": 240, "timeout_s": 120},
     "thorough": {"runs": 25000, "budget_s": 1500, "timeout_s": 120},
@@ -73,7 +73,15 @@ def execute(sc: dict, seed: int) -> dict:
         for i, (kind, k, s) in enumerate(subs):
             detail = rng.choice(harness.DETAILS)
             mode = rng.choice(["file", "file", "dir", "dir", "cwd", "dotdir"])
-            rr = harness.run_scenario(s, w, trace_mode=mode, detail=detail, name=f"t{i}")
+            if rng.random() < 0.15:
+                # the run is started from inside an `except` block of the caller (a retry after a handled error)
+                try:
+                    raise LookupError("handled by the caller before this run started")
+                except LookupError:
+                    rr = harness.run_scenario(s, w, trace_mode=mode, detail=detail, name=f"t{i}")
+                stats["probe.run_started_inside_except_block"] = stats.get("probe.run_started_inside_except_block", 0) + 1
+            else:
+                rr = harness.run_scenario(s, w, trace_mode=mode, detail=detail, name=f"t{i}")
             oc = rr["outcome"]
             stats["subruns"] = stats.get("subruns", 0) + 1
             stats["sim_seconds"] = stats.get("sim_seconds", 0.0)
